@@ -1117,7 +1117,30 @@ impl Visitor<Diagnostic> for LibraryRenderer {
         self.write_ws("(");
 
         if let Some(qualifier) = &node.qualifier {
-            self.write_ws(qualifier.to_string().as_str());
+            use dsl::sfc::{ActionQualifier, ActionTimeKind};
+            // The qualifiers with a time are followed by the duration or
+            // the name of the variable that has the duration
+            let (name, time) = match qualifier {
+                ActionQualifier::N => ("N", None),
+                ActionQualifier::R => ("R", None),
+                ActionQualifier::S => ("S", None),
+                ActionQualifier::L => ("L", None),
+                ActionQualifier::D => ("D", None),
+                ActionQualifier::P => ("P", None),
+                ActionQualifier::SD(time) => ("SD", Some(time)),
+                ActionQualifier::DS(time) => ("DS", Some(time)),
+                ActionQualifier::SL(time) => ("SL", Some(time)),
+                ActionQualifier::PR(time) => ("P1", Some(time)),
+                ActionQualifier::PF(time) => ("P0", Some(time)),
+            };
+            self.write_ws(name);
+            if let Some(time) = time {
+                self.write_ws(",");
+                match time {
+                    ActionTimeKind::Duration(duration) => self.visit_duration_literal(duration)?,
+                    ActionTimeKind::VariableName(name) => self.visit_id(name)?,
+                }
+            }
             if !node.indicators.is_empty() {
                 self.write_ws(",");
             }
